@@ -143,6 +143,7 @@ End StepDefs.
 
 Section Step.
   Context {R : Type} (o : ring_ops R) (L : ring_laws o) (u : unit_ops R) (UL : unit_laws o u).
+  Add Ring RringS : (ring_theory_of_laws o L).
   Local Notation dmat := (dmat R).
   Local Notation dwf := (@dwf R).
   Context (a1 : dmat) (m n r : nat) (vp vq : list nat) (t : ttype) (sc : schur R).
@@ -435,4 +436,64 @@ Section Step.
       rewrite s_eq, a2'_eq. apply (blk_complex_tgt o L r mr nr k fa fb fc fd fz fw fi Hi1 Hza Hzb).
     Qed.
   End WithA2.
+
+  (* ---------- tracked vectors ---------- *)
+  Lemma vmat_map (g : nat -> R) k : vmat o (map g (seq 0 k)) = dmk k 1 (fun i _ => g i).
+  Proof.
+    unfold vmat. rewrite map_length, seq_length. apply (dmk_ext o). intros i j Hi Hj.
+    rewrite nth_indep with (d' := g 0) by (now rewrite map_length, seq_length).
+    rewrite map_nth, seq_nth by assumption. reflexivity.
+  Qed.
+
+  Lemma dr_vmat (v : list R) : dr (vmat o v) = length v. Proof. reflexivity. Qed.
+  Lemma dc_vmat (v : list R) : dc (vmat o v) = 1. Proof. reflexivity. Qed.
+  Lemma dwf_vmat (v : list R) : dwf (vmat o v). Proof. apply dwf_dmk. Qed.
+
+  Theorem step_vec_src v w :
+    vec_src o vq r n v = Some w ->
+    length v = n /\ length w = n - r /\ vmat o w = dmul o (step_f1 o n r vq) (vmat o v).
+  Proof.
+    destruct sc_unfold as (E1 & E2 & _).
+    unfold vec_src. destruct (Nat.eqb_spec (length v) n) as [Hl|]; [|discriminate]. intros [= <-].
+    split; [exact Hl|]. split; [now rewrite map_length, seq_length|].
+    rewrite vmat_map. unfold step_f1. rewrite (dmul_assoc o L) by side2.
+    rewrite (dmul_row_perm o L n vq (vmat o v) Hq) by (now rewrite dr_vmat).
+    unfold dmul at 1. autorewrite with ddim. rewrite dc_vmat. apply (dmk_ext o). intros i j Hi Hj.
+    assert (j = 0) by lia. subst j.
+    rewrite (sum_ext o n _ (fun x => if x =? r + i then nth (pat vq x) v (rzero o) else rzero o)).
+    - now rewrite (sum_delta o L n (r + i) (fun x => nth (pat vq x) v (rzero o))) by lia.
+    - intros x Hx. unfold proj. rewrite !dget_dmk by lia.
+      replace (n - (n - r) + i) with (r + i) by lia.
+      unfold vmat. rewrite dget_dmk by (rewrite ?Hl; try lia; now apply (perm_lt n vq Hq)).
+      destruct (x =? r + i); ring.
+  Qed.
+
+  Theorem step_vec_tgt v w :
+    vec_tgt o vp r m sc v = Some w ->
+    length v = m /\ length w = m - r /\ vmat o w = dmul o (step_f2 o m r vp sc) (vmat o v).
+  Proof.
+    destruct sc_unfold as (E1 & E2 & Hi1 & Hi2 & Eai & Eaib & Ecai & Ec & Es).
+    unfold vec_tgt. destruct (Nat.eqb_spec (length v) m) as [Hl|]; [|discriminate]. intros [= <-].
+    split; [exact Hl|]. split; [now rewrite map_length, seq_length|].
+    rewrite vmat_map. unfold step_f2. rewrite Ecai. rewrite (dmul_assoc o L) by side2.
+    set (pv := dmul o P (vmat o v)).
+    assert (Epv : pv = dmk m 1 (fun k j => dget o (vmat o v) (pat vp k) j)).
+    { unfold pv. rewrite (dmul_row_perm o L m vp (vmat o v) Hp) by (now rewrite dr_vmat). now rewrite dc_vmat. }
+    assert (Hx : forall k, k < m -> dget o pv k 0 = nth (pat vp k) v (rzero o)).
+    { intros k Hk. rewrite Epv. rewrite dget_dmk by lia. unfold vmat.
+      rewrite dget_dmk; [reflexivity| |lia]. rewrite Hl. now apply (perm_lt m vp Hp). }
+    rewrite (dvcat_decomp o pv r) by (rewrite ?Epv; dwfs; autorewrite with ddim; lia).
+    replace (dc pv) with 1 by (now rewrite Epv). replace (dr pv) with m by (now rewrite Epv).
+    rewrite (dmul_hcat_vcat o L) by side2.
+    rewrite (dmul_id_l o L) by side2. rewrite (dmul_neg_l o L). rewrite (dadd_neg_sub o L) by side2.
+    rewrite (dmul_assoc o L) by side2.
+    unfold dsub. autorewrite with ddim. apply (dmk_ext o). intros i j Hi Hj. assert (j = 0) by lia. subst j.
+    rewrite (dget_dblock o) by lia. rewrite Hx by lia. replace (0 + 0) with 0 by lia.
+    unfold rsub. f_equal. f_equal.
+    rewrite (dget_dmul o) by (autorewrite with ddim; lia). autorewrite with ddim.
+    unfold mmul. apply (sum_ext o). intros k0 Hk0. rewrite Ec, Eai. f_equal.
+    rewrite (dget_dmul o) by (autorewrite with ddim; lia). autorewrite with ddim.
+    unfold mmul. apply (sum_ext o). intros l0 Hl0. f_equal.
+    rewrite (dget_dblock o) by lia. rewrite Hx by lia. reflexivity.
+  Qed.
 End Step.
